@@ -455,6 +455,58 @@ fn s64_align_and_bytes_body(shape: usize, nb: usize) {
     }
 }
 
+/// Long aligned slices (a whole storage word of payload plus a tail): 9 bytes onto an arbitrary
+/// two-word state - in particular a cursor that is byte-aligned but sits INSIDE a partly filled word,
+/// where a word-wise fast path must not start a new word.
+//@ unit props=C11,C08,C02 tier=quick kind=complete timeout=1500 funcs="MemSink<u64>::write_bytes_aligned" bound="slice length 9 onto 64+8 and 64+40 bits (byte-aligned inside a word); word contents and byte values arbitrary"
+#[kani::proof]
+#[kani::unwind(12)]
+fn s64_bytes_aligned_long() {
+    s64_bytes_aligned_long_body(1);
+    s64_bytes_aligned_long_body(5);
+}
+/// a cursor that is byte-aligned but INSIDE the second word: 64 + 8*j bits (j concrete per call)
+fn s64_bytes_aligned_long_body(j: usize) {
+    let a: u64 = kani::any();
+    let b: u64 = kani::any();
+    let b = b & top_mask(8 * j);
+    let mut id = Ideal::new();
+    id.w[0] = a;
+    id.w[1] = b;
+    id.len = 64 + 8 * j;
+    let mut storage = Vec::with_capacity(8);
+    storage.push(a);
+    storage.push(b);
+    let mut s = MemSink { storage, bitlength: 64 + 8 * j };
+    let bytes: [u8; 9] = kani::any();
+    let r = s.write_bytes_aligned(&bytes);
+    assert!(r.is_ok() && r.unwrap_or(usize::MAX) == 0);
+    let mut i = 0;
+    while i < 9 {
+        id.push_msbs((bytes[i] as u64) << 56, 8);
+        i += 1;
+    }
+    check64(&s, &id);
+    kani::cover!(bytes[8] == 0xA5);
+}
+
+//@ unit props=C11,C08 tier=quick kind=complete timeout=900 funcs="MemSink<u8>::write_bytes_aligned" bound="slice length 9 (byte values and sink state arbitrary)"
+#[kani::proof]
+#[kani::unwind(16)]
+fn s8_bytes_aligned_long() {
+    let (mut s, mut id) = any_sink8(2);
+    let bytes: [u8; 9] = kani::any();
+    let r = s.write_bytes_aligned(&bytes);
+    let pad = id.align();
+    assert!(r.is_ok() && r.unwrap_or(usize::MAX) == pad);
+    let mut i = 0;
+    while i < 9 {
+        id.push_msbs((bytes[i] as u64) << 56, 8);
+        i += 1;
+    }
+    check8(&s, &id, 12);
+}
+
 //@ unit props=C11,C08 tier=quick kind=complete timeout=600 funcs="MemSink<u8>::align_to_byte; MemSink<u8>::write_bytes_aligned" bound="slice lengths 0 and 2 (extend_from_slice, byte values and sink state arbitrary)"
 #[kani::proof]
 #[kani::unwind(12)]
